@@ -362,11 +362,26 @@ Lemma sum_dec_exceeds_precision_refuted :
   sum_dec_impl [[10 ^ 38 - 1; 10 ^ 38 - 1]] = Err /\ sum_dec_spec P0 [[10 ^ 38 - 1; 10 ^ 38 - 1]] = Err.
 Proof. vm_compute. auto. Qed.
 
-(* AVG(decimal): the native i128 `+=` overflows on two Decimal128(38,_) maxima *)
-Lemma avg_dec_refuted :
-  avg_dec_acc Debug [10 ^ 38 - 1; 10 ^ 38 - 1] = Panic /\
-  exists v, avg_dec_acc Release [10 ^ 38 - 1; 10 ^ 38 - 1] = Ok v /\ v < 0.
-Proof. split; [vm_compute; reflexivity|]. eexists. split; [vm_compute; reflexivity|]. reflexivity. Qed.
+(* AVG(decimal): the checked i128 accumulator gives the exact total or the error, in every profile
+   (fixed by 2f7b0a8b9; the native `+=` panicked / wrapped on two Decimal128(38,_) maxima) *)
+Lemma avg_dec_fold_from : forall (m : mode) xs s,
+  let F := fun acc x => bind_out acc (fun t => arith_result Checked m Signed 128 (t + x)) in
+  fold_left F xs (Ok s) = Ok (fold_left Z.add xs s) \/ fold_left F xs (Ok s) = Err.
+Proof.
+  intros m xs. induction xs as [|x xs IH]; intros s F; cbn [fold_left]; [left; reflexivity|].
+  unfold F at 2 4. cbn [bind_out arith_result]. destruct (in_range Signed 128 (s + x)); [apply IH|].
+  right. clear IH. induction xs as [|y ys IHy]; cbn [fold_left]; [reflexivity|].
+  unfold F at 2. cbn [bind_out]. exact IHy.
+Qed.
+
+Lemma avg_dec_exact_or_error : forall m xs,
+  avg_dec_acc m xs = Ok (fold_left Z.add xs 0) \/ avg_dec_acc m xs = Err.
+Proof. intros m xs. exact (avg_dec_fold_from m xs 0). Qed.
+
+Lemma avg_dec_overflow_is_error : forall m,
+  avg_dec_acc m [10 ^ 38 - 1; 10 ^ 38 - 1] = Err /\
+  avg_dec_acc m [10 ^ 38 - 1; 1] = Ok (10 ^ 38).
+Proof. intros []; split; vm_compute; reflexivity. Qed.
 
 (* ------------------------------------------------------------ round() on decimals *)
 (* dec_round gives the nearest multiple, ties away from zero *)
